@@ -14,13 +14,12 @@ pub fn bytes_mut_drop(_b: &mut bytes::BytesMut) {}
 
 /// `constant_time_eq::constant_time_eq_32` (inline asm) -> plain comparison.
 pub fn ct_eq_32(a: &[u8; 32], b: &[u8; 32]) -> bool {
-    let mut i = 0;
-    let mut eq = true;
-    while i < 32 {
-        eq &= a[i] == b[i];
-        i += 1;
-    }
-    eq
+    a == b
+}
+
+/// `n0_error::backtrace_enabled` (OnceLock + getenv) -> false: error call-site capture is off.
+pub fn n0_backtrace_enabled() -> bool {
+    false
 }
 
 /// tracing: callsites are never interested, nothing is enabled, events go nowhere.
@@ -50,3 +49,31 @@ pub fn backtrace_disabled() -> std::backtrace::Backtrace {
 pub fn fmt_format(_args: core::fmt::Arguments<'_>) -> String {
     String::new()
 }
+
+/// `tokio::time::Instant::now` (thread_local runtime context: Kani ICE) -> a fixed instant; only
+/// stored, never compared, in the harnesses that use this stub.
+pub fn tokio_instant_now() -> tokio::time::Instant {
+    unsafe { std::mem::zeroed() }
+}
+
+/// `std::time::SystemTime::now` (clock_gettime) -> the epoch.  (Harnesses in which time matters
+/// draw it in the body and use the in-crate clock model instead, so that stubs never draw values
+/// that the native replay would not draw.)
+pub fn system_time_now() -> std::time::SystemTime {
+    std::time::UNIX_EPOCH
+}
+
+/// `tracing_core::dispatcher::has_been_set` -> true: with tracing's `log` feature the macros fall
+/// back to the `log` crate only while no tracing dispatcher was ever set; this cuts that path
+/// (formatting of every logged field) out of the harness.
+pub fn tracing_has_been_set() -> bool {
+    true
+}
+
+/// `<anyhow::Error as Drop>::drop` -> no-op (leak): the drop goes through a vtable function
+/// pointer, which CBMC resolves against every candidate; error destruction is not a subject.
+pub fn anyhow_drop(_e: &mut anyhow::Error) {}
+
+/// `<BTreeMap<AuthorId, u64> as Drop>::drop` -> no-op (leak): B-tree node deallocation walks are
+/// intractable for CBMC (DESIGN.md P12) and not a subject of the harnesses using this stub.
+pub fn btreemap_heads_drop(_m: &mut std::collections::BTreeMap<iroh_docs::AuthorId, u64>) {}
